@@ -56,7 +56,7 @@ CHECKS = {
     note="Templates outside CBMC's reach. Use-after-free aspect observed under ASan in C07."),
  "C06": dict(
     engine="E1+E3", category="other", design_ref="DESIGN.md 4/C06, 3 (K18)",
-    technique="CBMC contracts on run()'s parameter check (k=0 rejected before any emission, all k), on the spanner loop (hop bound 2k-1, dropped <=> reachable) and on is_bfs_reachable (answer <=> within max_hops hops, n<=4/6) + bounded enforcement of ret <= (2k-1)*OPT, k=1 exact, against the brute-force optimum, and of the per-edge carrier contract K18b (closing path of a dropped edge weighs <= (2k-1) w(e))",
+    technique="CBMC contracts on run()'s parameter check (k=0 rejected before any emission, all k), on the spanner loop (hop bound 2k-1, dropped <=> reachable), on the comparator of its edge sort (== w1 < w2, all doubles) and on is_bfs_reachable (answer <=> within max_hops hops, n<=4/6) + bounded enforcement of ret <= (2k-1)*OPT, k=1 exact, against the brute-force optimum, and of the per-edge carrier contract K18b (closing path of a dropped edge weighs <= (2k-1) w(e))",
     text="k=0 rejection, the hop bound, the drop decision and the BFS answer are proved; the (2k-1) guarantee is a global-optimum statement and stays a bounded stand-in over the exact-domain set x k in {0,1,2,3,5,n}, together with K18b.",
     note="OPT from brute force (cross-checked with a Horton oracle); sequential approximate entry points (the TBB ones are C03)."),
  "C11": dict(
@@ -65,9 +65,9 @@ CHECKS = {
     text="Gating blocks proved for every predicate valuation and every rank; the whole programs are a bounded stand-in (10 files x all option combinations x process counts 1..3/4). Found and repaired: MPI demo gated on rank 0 only (hang).",
     note="Predicates abstracted to booleans in the proof (their contract is C10); OpenMPI behaviour in this sandbox; program_options trusted."),
  "C15": dict(
-    engine="E1+E3", category="other", design_ref="DESIGN.md 4/C15, 3 (K17), 10.8",
-    technique="CBMC DFCC loop contracts: the extracted edge loop of construct_spanner (partition, translation, endpoints, weights, hop bound 2k-1, dropped <=> is_bfs_reachable answered true) and the extracted is_bfs_reachable with invariants quantified over the bounded vertex range (answer <=> target within max_hops hops, via discovery-tree / closure clauses and an informal lemma; bounded direct-spec variant with native replay) + bounded enforcement of the whole spanner contract incl. stretch and girth through guarded accessors (hook H1)",
-    text="Edge loop proved (m<=12/32); is_bfs_reachable proved for n<=4/6 with unbounded degrees; stretch and girth follow informally from the two contracts and the sorted order and are enforced bounded over the exact-domain set x k in {1,2,3,5,n}; equal weights included.",
+    engine="E1+E3", category="other", design_ref="DESIGN.md 4/C15, 3 (K17), 10.8, 10.17",
+    technique="CBMC DFCC contracts: the comparator of the edge sort (== w1 < w2 for all doubles), loop contracts on the extracted edge loop of construct_spanner (partition, translation, endpoints, weights, hop bound 2k-1, dropped <=> is_bfs_reachable answered true) and the extracted is_bfs_reachable with invariants quantified over the bounded vertex range (answer <=> target within max_hops hops, via discovery-tree / closure clauses and an informal lemma; bounded direct-spec variant with native replay) + bounded enforcement of the whole spanner contract incl. stretch and girth through guarded accessors (hook H1)",
+    text="Edge loop proved (m<=12/32); is_bfs_reachable proved for n<=4/6 with unbounded degrees; stretch and girth follow informally from the two contracts and the sorted order (comparator proved, std::sort by contract) and are enforced bounded over the exact-domain set x k in {1,2,3,5,n}, also with all weights scaled by 2^-60 / 2^40; equal weights included.",
     note="Hook H1 (PARMCB_VERIF) exposes private members read-only. Found and repaired: spanner edges carried weight 0."),
  "C20": dict(
     engine="E2+E1+E3", category="proof", design_ref="DESIGN.md 4/C20, 3 (K26,K27)",
